@@ -113,6 +113,7 @@ void h_attr_thread(void) {
   if (!with) {
     __CPROVER_assert(r == 0, "attr translation: no attribute object -> NULL (MassiveThreads defaults)");
     __CPROVER_assert(g_get_detach == 0 && g_get_stack == 0, "attr translation: nothing is read through a NULL attribute pointer");
+    VERIF_CANARY();
   } else {
     __CPROVER_assert(r == &M, "attr translation: an attribute object -> the caller's translated object");
     __CPROVER_assert(!g_foreign_attr && g_get_detach == 1 && g_get_stack == 1, "attr translation: reads the program's attribute object, each getter once");
@@ -123,7 +124,8 @@ void h_attr_thread(void) {
   VERIF_CANARY();
 }
 
-/* ... and the part that shares defect F2 (myth_thread_attr_init_body leaves custom_data_size / custom_data as found) */
+/* ... and the part that shared defect F2 (myth_thread_attr_init_body left custom_data_size / custom_data as found; repaired
+   in /repo by "fix: myth_thread_attr_init left custom_data_size / custom_data uninitialised") */
 void h_attr_thread_full(void) {
   attr_world();
   myth_thread_attr_t M;
@@ -234,12 +236,14 @@ void h_convert(void) {
   if (g_i_conv) {
     __CPROVER_assert(g_barrier_calls == 1, "conversion: the converter orders initialisation before publication (barrier between them)");
     __CPROVER_assert(FIELDS_INIT, "conversion: afterwards state == 0, the queue is empty, the type is the default");
+    VERIF_CANARY();                                  /* the converting path is reachable */
   } else {
     __CPROVER_assert(g_barrier_calls == 0, "conversion: a waiting caller publishes nothing");
     __CPROVER_assert(MM->magic == g_A, "conversion: a caller that did not win the election never writes the magic word");
     __CPROVER_assert(MM->attr.type == B.attr.type && MM->state == B.state && MM->sleep_q[0].head == B.sleep_q[0].head &&
                      MM->sleep_q[0].tail == B.sleep_q[0].tail && MM->sleep_q[0].ilock[0].locked == B.sleep_q[0].ilock[0].locked,
                      "conversion: a mutex converted (or being converted) by somebody else is not written by me");
+    if (a0 != MAGIC_N) VERIF_CANARY();               /* the waiting path (through the loop contract) is reachable */
   }
   __CPROVER_assert(a0 != MAGIC_N || (g_cas_ok == 0 && MM->magic == MAGIC_N), "conversion: an already converted mutex is untouched");
   VERIF_CANARY();
